@@ -290,8 +290,13 @@ def _observe_under(self: Exporter, node: Any, terminal: bool, has_keys: bool) ->
 Exporter.observe_under = _observe_under  # type: ignore[attr-defined]
 
 
+def rs(v: Any) -> str:
+	"""a handler result as the driver renders it (behaviour `nil` returns None)"""
+	return 'None' if v is None else v
+
+
 def fmt_val(v: Any) -> str:
-	return '[' + ';'.join(v) + ']' if isinstance(v, list) else v
+	return '[' + ';'.join(rs(x) for x in v) + ']' if isinstance(v, list) else rs(v)
 
 
 def sig_of(ids: Ids, node: Any, kw: dict[str, Any]) -> str:
@@ -306,6 +311,18 @@ def make_handler(beh: str, ids: Ids, proc: Any, target_of: dict[int, Any]) -> An
 		return lambda node, **kw: sig_of(ids, node, kw)
 	if kind == 'id':
 		return lambda node, **kw: str(ids.of(node))
+	if kind == 'nil':
+		return lambda node, **kw: None
+	if kind == 'mut':
+		def mutating(node: Any, **kw: Any) -> str:  # reads its event, then edits the lists it was given in place
+			out = sig_of(ids, node, kw)
+			for j, v in enumerate(kw.values()):
+				if isinstance(v, list):
+					if j % 3 == 1:
+						v.clear()
+					v.insert(0, 'planted') if j % 3 == 2 else v.append('planted')
+			return out
+		return mutating
 	if kind == 'strict0':
 		def strict0(node: Any) -> str:  # no keyword parameters: a non-empty event is a TypeError (-> InvalidSchema)
 			return sig_of(ids, node, {})
@@ -330,13 +347,13 @@ def make_handler(beh: str, ids: Ids, proc: Any, target_of: dict[int, Any]) -> An
 		return chained
 	if kind == 'nest':
 		target = target_of[int(arg)]
-		return lambda node, **kw: sig_of(ids, node, kw) + '+<' + proc.exec(target) + '>'
+		return lambda node, **kw: sig_of(ids, node, kw) + '+<' + rs(proc.exec(target)) + '>'
 	if kind == 'try':
 		target = target_of[int(arg)]
 
 		def trier(node: Any, **kw: Any) -> str:
 			try:
-				r = proc.exec(target)
+				r = rs(proc.exec(target))
 			except Exception as e:  # noqa: BLE001 - the hazard under test
 				r = '!' + canon_exc(e)
 			return sig_of(ids, node, kw) + '+<' + r + '>'
@@ -357,7 +374,7 @@ def install(proc: Any, ids: Ids, fallback: str, specific: dict[str, str], target
 
 def real_exec(proc: Any, node: Any) -> str:
 	try:
-		res = 'ok ' + proc.exec(node)
+		res = 'ok ' + rs(proc.exec(node))
 	except Exception as e:  # noqa: BLE001
 		res = canon_exc(e)
 	return f'{res} | {sizes(proc)}'
@@ -573,11 +590,11 @@ def gen_synth_spec(rng: random.Random, dirty: bool) -> dict[str, Any]:
 	roots_by_level: list[list[int]] = []
 	for lv in range(3):
 		roots_by_level.append([gen_node(lv, rng.choice([1, 2, 2, 3, 3, 4, 7])) for _ in range(rng.randint(1, 2))])
-	fallback = rng.choices(['sig', 'id', 'none', 'raise:' + rng.choice(RAISES)], [85, 5, 5 if dirty else 1, 4 if dirty else 1])[0]
+	fallback = rng.choices(['sig', 'mut', 'id', 'none', 'raise:' + rng.choice(RAISES)], [60, 25, 5, 5 if dirty else 1, 4 if dirty else 1])[0]
 	specific: dict[str, str] = {}
 	for ci in range(len(classes)):
 		if rng.random() < 0.35:
-			opts = ['sig', 'id', 'sig', 'strict0', 'raise:' + rng.choice(RAISES)]
+			opts = ['sig', 'id', 'mut', 'nil', 'nil', 'strict0', 'raise:' + rng.choice(RAISES)]
 			lower = [r for lv in range(level[ci]) for r in roots_by_level[lv]]
 			if lower:
 				opts += [f'nest:{rng.choice(lower)}'] * 3
@@ -734,7 +751,8 @@ def _run_real_case_body(rng: random.Random, name: str, ep: Any, kind: str, ids: 
 	real = ['ok'] * len(lines)
 	proc: Any = Procedure()
 	classes = sorted({n.classification for _, n in ex.positions})
-	lines.append(install(proc, ids, 'sig', {}, {}))
+	# the whole module with handlers that edit their list arguments in place (`mut` = `sig` in the model: lists are per-event values)
+	lines.append(install(proc, ids, 'mut', {}, {}))
 	real.append('ok')
 	lines.append(f'wf\t{root_slot}')
 	real.append(real_wf(ids, ep))
@@ -748,7 +766,7 @@ def _run_real_case_body(rng: random.Random, name: str, ep: Any, kind: str, ids: 
 	for i, (slot, node) in enumerate(picks):
 		if i % 3 == 1:
 			some = rng.sample(classes, min(len(classes), 3))
-			lines.append(install(proc, ids, 'sig', {c: 'id' for c in some}, {}))
+			lines.append(install(proc, ids, 'sig', {c: ('nil' if j == 0 else 'id') for j, c in enumerate(some)}, {}))
 			real.append('ok')
 		elif i % 3 == 2:
 			missing = node.classification if rng.random() < 0.5 else rng.choice(classes)
@@ -1070,6 +1088,33 @@ def spec_walk(root: Any) -> tuple[list[Any], list[dict[str, Any]]]:
 LAYOUTS = ['fallback', 'fallback', 'dedicated', 'mixed']  # handler layouts of the identity runs (see IdentityRun.wire)
 
 
+class _Planted:
+	"""marker a handler puts into a list argument it received (the list is its own: a fresh object per event)"""
+
+	def __init__(self, by: int) -> None:
+		self.by = by
+
+	def __repr__(self) -> str:
+		return f'<planted by call #{self.by}>'
+
+
+# falsy handler results (fresh containers per call, so identity tells positions apart where it can)
+FALSY: list[Any] = [lambda: None, lambda: 0, lambda: '', lambda: [], lambda: False, lambda: (), lambda: None, lambda: 0.0]
+VALUES = ['identity', 'identity', 'falsy']
+
+
+def list_declared(node: Any, key: str) -> bool:
+	"""what the author of a handler knows from the node definition: the property is declared `list[...]`"""
+	try:
+		return is_ann_list(node, key)
+	except Exception:  # noqa: BLE001
+		return False
+
+
+def short(v: Any) -> str:
+	return f'(node {type(v[0]).__name__}, #{v[1]}, run {v[2]})' if isinstance(v, tuple) and len(v) == 3 else repr(v)[:60]
+
+
 class _Boom(Exception):
 	"""raised on purpose by the history part of the oracle (a handler failure in an earlier run)"""
 
@@ -1079,11 +1124,12 @@ class IdentityRun:
 	with the independent property walk. A check may start nested checks from inside a handler call (`nest`) and may be
 	preceded by deliberately failing runs on the same Procedure (history)."""
 
-	def __init__(self, layout: str = 'fallback', salt: int = 0) -> None:
+	def __init__(self, layout: str = 'fallback', salt: int = 0, values: str = 'identity') -> None:
 		from rogw.tranp.semantics.procedure import Procedure
 		self.proc: Any = Procedure()
 		self.layout = layout
 		self.salt = salt
+		self.values = values  # 'identity': every handler returns (node, index, run id); 'falsy': a salt-chosen third of the classes returns None / 0 / '' / [] / False / ()
 		self.dedicated: set[str] = set()   # classifications already decided by `wire`
 		self.registered: set[str] = set()  # ... of which these have an `on_<classification>` handler
 		if layout != 'dedicated':
@@ -1123,27 +1169,58 @@ class IdentityRun:
 
 	def fresh(self) -> 'IdentityRun':
 		"""a new Procedure with the same handler layout (after a finding / an exceeded budget)"""
-		return IdentityRun(self.layout, self.salt)
+		return IdentityRun(self.layout, self.salt, self.values)
 
-	def fb(self, node: Any, **kw: Any) -> tuple[Any, int, int]:
+	def value_for(self, node: Any, idx: int, run_id: int) -> Any:
+		"""What the handler of `node` returns. The law is about ANY result (T_Ret is arbitrary): a handler may return None or
+		another falsy value and its parent must receive exactly that, in the position of that child."""
+		if self.values == 'falsy':
+			h = zlib.crc32(f'{self.salt}:v:{node.classification}'.encode())
+			if h % 3 == 0:
+				return FALSY[(h // 3) % len(FALSY)]()
+		return node, idx, run_id
+
+	def fb(self, node: Any, **kw: Any) -> Any:
 		via = kw.pop('_via', None)  # set by the dedicated handlers of `wire` (no getter is called `_via`)
 		frame = self.frames[-1]
 		idx = len(frame['calls'])
-		frame['calls'].append((node, kw))
+		# the event as RECEIVED (list arguments copied), then the handler edits "its" lists in place like a handler that
+		# accumulates into an argument would (append / insert / extend / clear / reverse): the lists belong to this event
+		# (a list received for a single-valued property is the child's RESULT - the falsy layouts return `[]` - and not the handler's to edit)
+		mine = {k for k, v in kw.items() if isinstance(v, list) and list_declared(node, k)}
+		frame['calls'].append((node, {k: list(v) if k in mine else v for k, v in kw.items()}))
 		frame['via'].append(via)
+		for j, (k, v) in enumerate(kw.items()):
+			if k in mine:
+				m = (idx + j) % 5
+				if m == 0:
+					v.append(_Planted(idx))
+				elif m == 1:
+					v.insert(0, _Planted(idx))
+				elif m == 2:
+					v.extend([_Planted(idx), _Planted(idx)])
+				elif m == 3:
+					v.clear()
+					v.append(_Planted(idx))
+				else:
+					v.reverse()
+					v.append(_Planted(idx))
 		if frame['fail_at'] == idx:
+			frame['results'].append(_Boom)
 			raise _Boom()
 		plan = frame['nest'].get(idx)
 		if plan is not None:
 			bad = self.check(plan)
 			if bad:
 				self.nested_bad.append((f'nested:{bad[0]}', f'nested run started from call #{idx}: {bad[1]}'))
-		return node, idx, frame['id']
+		ret = self.value_for(node, idx, frame['id'])
+		frame['results'].append(ret)
+		return ret
 
 	def fail_once(self, root: Any, at: int) -> tuple[str, str] | None:
 		"""A run whose handler raises at call `at`: must surface as Errors.Fatal (procedure.py:173-174)."""
 		self.wire(spec_walk(root)[0])
-		frame = {'calls': [], 'via': [], 'nest': {}, 'fail_at': at, 'id': next(self.run_ids)}
+		frame = {'calls': [], 'via': [], 'results': [], 'nest': {}, 'fail_at': at, 'id': next(self.run_ids)}
 		self.frames.append(frame)
 		try:
 			self.proc.exec(root)
@@ -1165,7 +1242,7 @@ class IdentityRun:
 			self.wire(order)
 		except Exception as e:  # noqa: BLE001
 			return (f'on-raises:{canon_exc(e)}', f'registering a handler raised {canon_exc(e)}')
-		frame = {'calls': [], 'via': [], 'nest': nest or {}, 'fail_at': None, 'id': next(self.run_ids)}
+		frame = {'calls': [], 'via': [], 'results': [], 'nest': nest or {}, 'fail_at': None, 'id': next(self.run_ids)}
 		depth = len(stacks_of(self.proc))
 		below = [list(f) for f in stacks_of(self.proc)]
 		self.frames.append(frame)
@@ -1175,18 +1252,18 @@ class IdentityRun:
 			calls = frame['calls']
 			i = len(calls)
 			at = type(order[i]).__name__ if i < len(order) else '?'
-			bad = first_misaligned(order, expect, calls, frame['id']) or restable(order, expect, root)
+			bad = first_misaligned(order, expect, calls, frame['id'], frame['results']) or restable(order, expect, root)
 			return (f'exec-raises:{canon_exc(e).split(":")[0]}:{bad[0] if bad else at}', f'exec raised {canon_exc(e)} after {i} handler calls; {bad[1] if bad else ""}')
 		finally:
 			self.frames.pop()
 		calls = frame['calls']
-		bad = first_misaligned(order, expect, calls, frame['id']) or restable(order, expect, root) or self.misdispatched(frame)
+		bad = first_misaligned(order, expect, calls, frame['id'], frame['results']) or restable(order, expect, root) or self.misdispatched(frame)
 		if bad:
 			return bad
 		if len(calls) != len(order):
 			return (f'visit-count:{type(root).__name__}', f'{len(calls)} handler calls for {len(order)} nodes of the property walk')
-		if not isinstance(res, tuple) or res[0] is not calls[-1][0] or res[1:] != (len(order) - 1, frame['id']):
-			return (f'final:{type(root).__name__}', 'exec did not return the result of the root handler')
+		if res is not frame['results'][-1] or (isinstance(res, tuple) and len(res) == 3 and (res[0] is not calls[-1][0] or res[1:] != (len(order) - 1, frame['id']))):
+			return (f'final:{type(root).__name__}', f'exec did not return the result of the root handler (returned {short(res)}, the root handler returned {short(frame["results"][-1])})')
 		now = stacks_of(self.proc)
 		if len(now) != depth or any(a != b for a, b in zip(now, below)):
 			return (f'frames-disturbed:{type(root).__name__}', f'stack-of-stacks had {depth} frame(s) before and has {len(now)} after a successful exec (or a lower frame changed)')
@@ -1229,7 +1306,12 @@ def _tok(node: Any) -> str:
 		return '?'
 
 
-def first_misaligned(order: list[Any], expect: list[dict[str, Any]], calls: list[tuple[Any, dict[str, Any]]], run_id: int | None = None) -> tuple[str, str] | None:
+def is_ours(g: Any) -> bool:
+	return isinstance(g, tuple) and len(g) == 3 and isinstance(g[1], int) and isinstance(g[2], int)
+
+
+def first_misaligned(order: list[Any], expect: list[dict[str, Any]], calls: list[tuple[Any, dict[str, Any]]], run_id: int | None, results: list[Any]) -> tuple[str, str] | None:
+	"""`calls` = the events as received, `results` = what each handler call returned (same indices)."""
 	for i, (node, kw) in enumerate(calls):
 		if i >= len(order):
 			return (f'extra-visit:{type(node).__name__}', f'handler call #{i} for {node!r} beyond the nodes reachable through properties')
@@ -1252,19 +1334,35 @@ def first_misaligned(order: list[Any], expect: list[dict[str, Any]], calls: list
 			return (f'event-keys:{cls}', f'{cls} received keys {sorted(kw)} for properties {sorted(exp)}')
 		for k, want in exp.items():
 			got = kw[k]
-			if isinstance(want, list) != isinstance(got, list):
-				return (f'event-shape:{cls}.{k}', f'{cls}.{k}: list/single mismatch')
-			got_l = got if isinstance(got, list) else [got]
-			want_l = want if isinstance(want, list) else [want]
-			if any(not isinstance(g, tuple) for g in got_l):
-				return (f'event-foreign:{cls}.{k}', f'{cls}.{k} received something no handler returned')
-			if run_id is not None and any(g[2] != run_id for g in got_l):
-				return (f'event-other-run:{cls}.{k}', f'{cls}.{k} received a result of another (nested/earlier) run')
-			if [g[1] for g in got_l] != want_l:
-				return (f'event-operand:{cls}.{k}', f'{cls}.{k} received results of positions {[g[1] for g in got_l]}, its own nodes are at {want_l}')
+			# a handler result may itself be a list (`[]` of the falsy layouts): a single-valued property is judged by identity first
+			if isinstance(want, list):
+				if not isinstance(got, list):
+					return (f'event-shape:{cls}.{k}', f'{cls}.{k}: list/single mismatch')
+				got_l, want_l = got, want
+			else:
+				own = results[want] if want < len(results) else _Boom
+				if got is not own and isinstance(got, list) and not isinstance(own, list):
+					return (f'event-shape:{cls}.{k}', f'{cls}.{k}: list/single mismatch')
+				got_l, want_l = [got], [want]
+			if any(isinstance(g, _Planted) for g in got_l):
+				by = next(g.by for g in got_l if isinstance(g, _Planted))
+				return (f'event-shared-list:{cls}.{k}', f'{cls}.{k} received a list object that the handler of call #{by} had received before and edited in place '
+					f'(call #{i} got {[short(g) for g in got_l]}, its own nodes are at {want_l}): the list of an event is not a fresh object')
+			pos = [g[1] if is_ours(g) else short(g) for g in got_l]
+			if len(got_l) != len(want_l):
+				return (f'event-operand:{cls}.{k}', f'{cls}.{k} received results of positions {pos}, its own nodes are at {want_l}')
+			for g, q in zip(got_l, want_l):
+				own = results[q] if q < len(results) else _Boom
+				if g is own:
+					continue
+				if is_ours(g) and run_id is not None and g[2] != run_id:
+					return (f'event-other-run:{cls}.{k}', f'{cls}.{k} received a result of another (nested/earlier) run')
+				if is_ours(g) or any(g is r for r in results) or type(g) in (type(None), bool, int, float, str, list, tuple):
+					return (f'event-operand:{cls}.{k}', f'{cls}.{k} received {pos}, its own nodes are at {want_l} whose handlers returned {[short(results[x]) if x < len(results) else "?" for x in want_l]}')
+				return (f'event-foreign:{cls}.{k}', f'{cls}.{k} received something no handler returned: {short(g)}')
 			vals = getattr(node, k)
 			vals_l = vals if isinstance(vals, list) else [vals]
-			if len(vals_l) != len(got_l) or any(g[0] != v for g, v in zip(got_l, vals_l)):
+			if len(vals_l) != len(want_l) or any(q >= len(calls) or calls[q][0] != v for q, v in zip(want_l, vals_l)):
 				return (f'event-node:{cls}.{k}', f'{cls}.{k} received results of other nodes than getattr yields')
 	return None
 
@@ -1393,8 +1491,10 @@ def check_tree_set(rng: random.Random, name: str, roots: list[Any], res: SearchR
 	run with nested runs started from inside handler calls. `must_hold`: the trees are known to be processable
 	(real modules, well-formed synthetic trees) so any exception of the real code is a finding."""
 	layout = rng.choice(LAYOUTS)
-	run = IdentityRun(layout, rng.randrange(1 << 16))
+	values = rng.choice(VALUES)
+	run = IdentityRun(layout, rng.randrange(1 << 16), values)
 	hist[f'handler layout: {layout}'] += 1
+	hist[f'handler results: {values}' + (' (a third of the classes returns None / 0 / "" / [] / False / ())' if values == 'falsy' else '')] += 1
 	for n, root in enumerate(roots):
 		res.cases += 1
 		mode = n % 4
@@ -1435,7 +1535,7 @@ def check_tree_set(rng: random.Random, name: str, roots: list[Any], res: SearchR
 		if bad:
 			key, what = bad
 			res.findings.append(Finding(key=key, what=f'{what} [{name}]' + (f' WF: {wf_bad[:3]}' if wf_bad else ''),
-				replay={'source_name': name, 'root': getattr(root, 'full_path', '?'), 'source': source, 'wf': wf_bad[:10], 'mode': mode, 'layout': run.layout, 'salt': run.salt}))
+				replay={'source_name': name, 'root': getattr(root, 'full_path', '?'), 'source': source, 'wf': wf_bad[:10], 'mode': mode, 'layout': run.layout, 'salt': run.salt, 'values': run.values}))
 			run = run.fresh()
 
 
@@ -2434,6 +2534,6 @@ def replay(ctx: Ctx, path: str) -> int:
 		else:
 			ep = load_entrypoint(app, inp['source'])
 			if ep is not None:
-				print(f"replay: identity oracle on the recorded source, handler layout {inp.get('layout', 'fallback')} ->", IdentityRun(inp.get('layout', 'fallback'), int(inp.get('salt', 0))).check(ep))
+				print(f"replay: identity oracle on the recorded source, handler layout {inp.get('layout', 'fallback')}, results {inp.get('values', 'identity')} ->", IdentityRun(inp.get('layout', 'fallback'), int(inp.get('salt', 0)), inp.get('values', 'identity')).check(ep))
 	ctx2 = Ctx(PROP, rec.get('tier', 'quick'), int(rec.get('seed', 0)))
 	return run(ctx2)
